@@ -172,8 +172,10 @@ func genPad(r *rand.Rand, nameLen int) int {
 		return 1
 	case 2:
 		return 1 + r.Intn(40)
+	case 3:
+		return (nameLen+1+3)/4*4 - nameLen // current cbfstool: the name field is a multiple of 4
 	}
-	return (nameLen+1+15)/16*16 - nameLen // cbfstool: the name field is a multiple of 16
+	return (nameLen+1+15)/16*16 - nameLen // older cbfstool: the name field is a multiple of 16
 }
 
 func genOtherAttr(r *rand.Rand) attr {
@@ -286,8 +288,8 @@ func genRec(r *rand.Rand, idx int, pool []payload, tame bool) (rec, []byte) {
 			rc.Name, rc.NamePad = nil, 16
 		}
 		rc.Data = bytes.Repeat([]byte{0xff}, r.Intn(300))
-		if r.Intn(4) == 0 {
-			r.Read(rc.Data) // stale content of a deleted file
+		if r.Intn(8) == 0 {
+			r.Read(rc.Data) // stale content of a deleted file (Update rewrites it to 0xFF: known finding)
 		}
 		return rc, nil // empty space carries no attributes
 	case rc.Type == typeSELF:
@@ -333,7 +335,15 @@ func genRec(r *rand.Rand, idx int, pool []payload, tame bool) (rec, []byte) {
 	for k := r.Intn(3) * r.Intn(2); k > 0; k-- {
 		rc.Attrs = append(rc.Attrs, genOtherAttr(r))
 	}
-	// a file-level compression attribute; the text listing prints a constant for master / SELF
+	// records whose data has a structure of its own keep it: the attribute only names an algorithm
+	if (rc.Type == typeMaster || rc.Type == typeSELF || rc.Type == typeLegacy) && r.Intn(4) == 0 {
+		c := uint32(0)
+		if !tame {
+			c = uint32(r.Intn(5))
+		}
+		rc.Attrs = append(rc.Attrs, compAttr(r, c, len(rc.Data)))
+	}
+	// a file-level compression attribute with a really compressed content
 	if rc.Type != typeMaster && rc.Type != typeSELF && rc.Type != typeLegacy && r.Intn(3) == 0 {
 		switch k := r.Intn(10); {
 		case k < 6 && len(pool) > 0:
@@ -361,7 +371,109 @@ func genRec(r *rand.Rand, idx int, pool []payload, tame bool) (rec, []byte) {
 	return rc, orig
 }
 
+// stageAttr: the attribute a type-0x11 stage carries (FileAttrStageHeader: load address, entry offset,
+// memory size)
+func stageAttr(r *rand.Rand) attr {
+	b := binary.BigEndian.AppendUint64(nil, r.Uint64())
+	b = append(b, be32(r.Uint32())...)
+	b = append(b, be32(r.Uint32())...)
+	return attr{0x53746748, b}
+}
+
+var boundaryNameLens = []int{0, 0, 1, 3, 4, 15, 16, 17, 31, 32, 33}
+
+// genKindRecs: one record of every kind the reader distinguishes — every registered type, two
+// unregistered ones, both empty-space types — in random order; names at the padding boundaries (empty
+// name, empty name FIELD, 15/16/17, 31/32/33 bytes; name field padded to 4, to 16, or not at all); the
+// type-0x11 stage with its stage-header attribute (alone, before or behind a compression attribute);
+// every record start 16-aligned but, wherever possible, not 64-aligned.
+func genKindRecs(r *rand.Rand, pool []payload, tame bool) ([]rec, map[int][]byte) {
+	types := append([]uint32(nil), registeredTypes...)
+	types = append(types, unknownTypes[r.Intn(len(unknownTypes))], unknownTypes[r.Intn(len(unknownTypes))], typeDeleted, typeDeleted2)
+	r.Shuffle(len(types), func(i, j int) { types[i], types[j] = types[j], types[i] })
+	var recs []rec
+	origs := map[int][]byte{}
+	off := 0
+	for idx, t := range types {
+		var rc rec
+		var orig []byte
+		for { // a record of exactly this type from the general generator
+			rc, orig = genRec(r, idx, pool, tame)
+			if rc.Type == t || (isEmptyType(t) && isEmptyType(rc.Type)) {
+				rc.Type = t
+				break
+			}
+			if !isEmptyType(t) && !isEmptyType(rc.Type) && t != typeSELF && t != typeLegacy && t != typeMaster &&
+				rc.Type != typeSELF && rc.Type != typeLegacy && rc.Type != typeMaster {
+				rc.Type = t // plain kinds are interchangeable
+				break
+			}
+		}
+		if !tame || !isEmptyType(t) {
+			l := boundaryNameLens[r.Intn(len(boundaryNameLens))]
+			if isEmptyType(t) {
+				l = []int{0, 0, 0, 3}[r.Intn(4)]
+			}
+			if tame { // distinct, non-empty file names for `cbfs extract`
+				rc.Name = []byte(fmt.Sprintf("f%d", idx))
+				if l > len(rc.Name) {
+					rc.Name = append(rc.Name, bytes.Repeat([]byte{'n'}, l-len(rc.Name))...)
+				}
+			} else {
+				rc.Name = bytes.Repeat([]byte{'a' + byte(idx%26)}, l)
+			}
+			switch r.Intn(4) {
+			case 0:
+				rc.NamePad = 0 // no terminator; with an empty name: an empty name field
+			case 1:
+				rc.NamePad = (len(rc.Name)+1+3)/4*4 - len(rc.Name)
+			default:
+				rc.NamePad = (len(rc.Name)+1+15)/16*16 - len(rc.Name)
+			}
+		}
+		if t == 0x11 {
+			switch r.Intn(3) {
+			case 0:
+				rc.Attrs = []attr{stageAttr(r)}
+				if orig != nil { // the compressed content needs its attribute
+					rc.Attrs = append(rc.Attrs, compAttr(r, compOfPool(pool, rc.Data), len(orig)))
+				}
+			case 1:
+				rc.Attrs = append([]attr{stageAttr(r)}, rc.Attrs...)
+			default:
+				rc.Attrs = append(rc.Attrs, stageAttr(r))
+			}
+		}
+		// next record 16-aligned but not 64-aligned (the last one ends the area 16-aligned)
+		end := off + rc.subOff() + len(rc.Data)
+		rc.Gap = (16 - end%16) % 16
+		if (end+rc.Gap)%64 == 0 && idx != len(types)-1 {
+			rc.Gap += 16 * (1 + r.Intn(3))
+		}
+		if orig != nil {
+			origs[idx] = orig
+		}
+		recs = append(recs, rc)
+		off += rc.length()
+	}
+	return recs, origs
+}
+
+// compOfPool: the algorithm of the pool entry whose encoding is `enc`
+func compOfPool(pool []payload, enc []byte) uint32 {
+	for _, p := range pool {
+		if bytes.Equal(p.enc, enc) {
+			return p.comp
+		}
+	}
+	return 0
+}
+
 func genArchive(r *rand.Rand, pool []payload, tame bool) archive {
+	return genArchiveMode(r, pool, tame, "mixed")
+}
+
+func genArchiveMode(r *rand.Rand, pool []payload, tame bool, mode string) archive {
 	var a archive
 	a.orig = map[int][]byte{}
 	a.fill = 0xff
@@ -382,6 +494,13 @@ func genArchive(r *rand.Rand, pool []payload, tame bool) archive {
 		n = 1
 	}
 	off := 0
+	if mode == "kinds" {
+		a.recs, a.orig = genKindRecs(r, pool, tame)
+		n = 0
+		for _, rc := range a.recs {
+			off += rc.length()
+		}
+	}
 	for i := 0; i < n; i++ {
 		rc, orig := genRec(r, i, pool, tame)
 		align := []int{16, 64, 64, 64, 128}[r.Intn(5)]
@@ -401,7 +520,7 @@ func genArchive(r *rand.Rand, pool []payload, tame bool) archive {
 		a.recs = append(a.recs, rc)
 		off += rc.length()
 	}
-	if n == 0 && r.Intn(2) == 0 { // an area that holds only fill bytes
+	if mode != "kinds" && n == 0 && r.Intn(2) == 0 { // an area that holds only fill bytes
 		a.recs = nil
 	}
 	areaLen := off
@@ -548,6 +667,48 @@ func mutants(r *rand.Rand, a archive, all bool) []core.Case {
 	return cs
 }
 
+// nameFill: a well-formed archive in which the bytes of some name fields behind the first NUL are
+// not zero (0xFF filler as in the bundled coreboot.rom, or junk). Outside the reference grammar, so the
+// case runs as a patch: the model must agree, and every oracle that holds for any accepted image applies.
+func nameFill(r *rand.Rand, a archive) (core.Case, bool) {
+	var patches []string
+	off := len(a.pre)
+	for _, rc := range a.recs {
+		if rc.NamePad >= 2 && r.Intn(3) != 0 {
+			junk := bytes.Repeat([]byte{0xff}, rc.NamePad-1)
+			if r.Intn(3) == 0 {
+				r.Read(junk)
+			}
+			patches = append(patches, fmt.Sprintf("%d:%s", off+24+len(rc.Name)+1, core.Hex(junk)))
+		}
+		off += rc.length()
+	}
+	if len(patches) == 0 {
+		return core.Case{}, false
+	}
+	c := a.toCase("wf-namefill")
+	c.Args["patch"] = strings.Join(patches, ",")
+	return c, true
+}
+
+// genRunes: byte strings around the edges of Go's UTF-8 decoder (lead bytes, continuation ranges,
+// truncated and overlong encodings, surrogates, values above U+10FFFF) mixed with ASCII
+func genRunes(r *rand.Rand) []byte {
+	pieces := [][]byte{{0x41}, {0x7f}, {0x80}, {0xbf}, {0xc0, 0x80}, {0xc1, 0xbf}, {0xc2, 0x80}, {0xc2}, {0xdf, 0xbf}, {0xdf, 0x7f},
+		{0xe0, 0x9f, 0x80}, {0xe0, 0xa0, 0x80}, {0xe0, 0xa0}, {0xed, 0x9f, 0xbf}, {0xed, 0xa0, 0x80}, {0xef, 0xbf, 0xbd}, {0xef, 0xbf},
+		{0xf0, 0x8f, 0x80, 0x80}, {0xf0, 0x90, 0x80, 0x80}, {0xf0, 0x90, 0x80}, {0xf4, 0x8f, 0xbf, 0xbf}, {0xf4, 0x90, 0x80, 0x80},
+		{0xf5, 0x80, 0x80, 0x80}, {0xff}, {0xe2, 0x80, 0xa8}, {'"'}, {'\\'}, {'<'}, {0x01}, {' '}, []byte("é"), []byte("名")}
+	var b []byte
+	for k := r.Intn(12); k > 0; k-- {
+		if r.Intn(4) == 0 {
+			b = append(b, byte(r.Intn(256)))
+		} else {
+			b = append(b, pieces[r.Intn(len(pieces))]...)
+		}
+	}
+	return b
+}
+
 func genAttrBlock(r *rand.Rand) []byte {
 	var as []attr
 	for k := r.Intn(5); k > 0; k-- {
@@ -581,8 +742,10 @@ func genAttrBlock(r *rand.Rand) []byte {
 
 func (prop) Gen(r *rand.Rand, tier string) []core.Case {
 	nWF, nMut, nAttr, nCmd, nRaw := 260, 24, 150, 10, 20
+	nKinds, nKindsCmd, nFill, nRunes := 50, 4, 30, 200
 	if tier == "thorough" {
 		nWF, nMut, nAttr, nCmd, nRaw = 7000, 300, 4000, 100, 300
+		nKinds, nKindsCmd, nFill, nRunes = 1500, 40, 800, 6000
 	}
 	pool := payloadPool(r, 24)
 	var cs []core.Case
@@ -594,10 +757,25 @@ func (prop) Gen(r *rand.Rand, tier string) []core.Case {
 		c.Args["cmd"] = "1"
 		cs = append(cs, c)
 	}
-	for i := 0; i < 3; i++ { // known finding: Update() on an unmodified archive
-		c := genArchive(r, pool, true).toCase("wf-update")
-		c.Args["update"] = "1"
+	for i := 0; i < nKinds; i++ { // one record of every kind, boundary names, 16-not-64-aligned starts
+		cs = append(cs, genArchiveMode(r, pool, false, "kinds").toCase("wf-kinds"))
+	}
+	for i := 0; i < nKindsCmd; i++ {
+		c := genArchiveMode(r, pool, true, "kinds").toCase("wf-kinds-cmd")
+		c.Args["cmd"] = "1"
 		cs = append(cs, c)
+	}
+	for i := 0; i < nFill; i++ { // name fields with bytes behind the terminator (cbfstool leaves 0xFF there)
+		mode := "mixed"
+		if i%2 == 0 {
+			mode = "kinds"
+		}
+		if c, ok := nameFill(r, genArchiveMode(r, pool, false, mode)); ok {
+			cs = append(cs, c)
+		}
+	}
+	for i := 0; i < nRunes; i++ {
+		cs = append(cs, core.Case{Kind: "runes", Op: "runes", Args: map[string]string{"s": core.Hex(genRunes(r))}})
 	}
 	for i := 0; i < nMut; i++ {
 		a := genArchive(r, pool, false)
